@@ -88,6 +88,20 @@ func (r *Recorder) Cmds() map[string]func(ts *testscript.TestScript, neg bool, a
 				ts.Fatalf("usage: cemit [-o text] [-e text]")
 			}
 		},
+		// cexec runs a program through the exported TestScript.Exec, the way custom commands of real users do (gotooltest's
+		// "go"): same contract as the builtin exec without "&" - pending stdin is used up, stdout and stderr are captured
+		"cexec": func(ts *testscript.TestScript, neg bool, args []string) {
+			if len(args) < 1 {
+				ts.Fatalf("usage: cexec program [args...]")
+			}
+			err := ts.Exec(args[0], args[1:]...)
+			if err == nil && neg {
+				ts.Fatalf("unexpected command success")
+			}
+			if err != nil && !neg {
+				ts.Fatalf("unexpected command failure: %v", err)
+			}
+		},
 		"setenv": func(ts *testscript.TestScript, neg bool, args []string) {
 			if neg || len(args) != 2 {
 				ts.Fatalf("usage: setenv name value")
